@@ -160,7 +160,6 @@ theorem runPipeline_eq_foldlM (db : Db) : ∀ (p : List Val) (docs : List Val),
 theorem runStage_single (db : Db) (op : String) (opts : Val) (docs : List Val) :
     runStage db (.doc [(op, opts)]) docs = runOp db op opts docs := by
   simp only [runStage, runOps]
-  cases runOp db op opts docs <;> rfl
 
 theorem runOp_simple (db : Db) (op : String) (opts : Val) (docs : List Val) (h : op ≠ "$facet") :
     runOp db op opts docs = simpleStage db op opts docs := by
